@@ -53,7 +53,8 @@ mod execute_imports {
         BUCKET_ID_USED,
         FEE_DENOM,
         LISTING_ID_USED, //BUCKET_COUNT, LISTING_COUNT
-        ROYALTY_REGISTRY
+        ROYALTY_REGISTRY,
+        GetComPoolMsg
     };
     pub use crate::utils::{calc_fee_coin, max, send_tokens_cosmos};
     pub use cosmwasm_std::{Addr, DepsMut, Env, Response, StdError, CosmosMsg};
